@@ -1,0 +1,380 @@
+//! Simulation seams, compiled only with the `verif` cargo feature.
+//!
+//! With the feature off nothing in this file exists and the crate is unchanged. With it on, the
+//! hash containers used by the mesh connectivity / filtering / flattening code and the random
+//! number source used by mesh sampling are routed through an [`Env`] that a test harness installs
+//! on the current thread. The containers are the *real* `std::collections` tables with a hasher
+//! chosen by the environment, so every iteration order they produce is one that a real
+//! `HashMap<_, _, S>` can produce. With no environment installed the seams fall back to fixed
+//! keys and a fixed stream, so the feature-on crate is deterministic by itself.
+
+use std::cell::RefCell;
+
+/// The hash function family a container instance is built with.
+#[derive(Clone, Copy, Debug, PartialEq, Eq)]
+pub enum Policy {
+    /// SipHash-1-3 (std's `DefaultHasher`) prefixed with two key words: the same family of
+    /// pseudo-random orders `RandomState` produces.
+    Sip(u64, u64),
+    /// Fold of the written words: small integer keys come out in near-ascending order.
+    Identity,
+    /// Bitwise complement of `Identity`: near-descending order.
+    Reverse,
+    /// Multiplicative (Fx-like) hash with the given odd multiplier.
+    Mul(u64),
+    /// `Identity` reduced modulo a small number: long probe chains.
+    Collide(u64),
+}
+
+/// Everything the environment decides while library code runs.
+pub trait Env {
+    /// Called once per container construction.
+    fn map_policy(&mut self, site: &'static str) -> Policy;
+    /// Called on every container access and at explicit tick points; may unwind to stop a run.
+    fn tick(&mut self, site: &'static str);
+    /// One raw random word.
+    fn next_u64(&mut self, site: &'static str) -> u64;
+}
+
+thread_local! {
+    static ENV: RefCell<Option<Box<dyn Env>>> = const { RefCell::new(None) };
+    static FALLBACK: RefCell<u64> = const { RefCell::new(0x9E37_79B9_7F4A_7C15) };
+}
+
+/// Install (or remove) the environment of the current thread, returning the previous one.
+pub fn install(env: Option<Box<dyn Env>>) -> Option<Box<dyn Env>> {
+    ENV.with(|e| std::mem::replace(&mut *e.borrow_mut(), env))
+}
+
+pub fn tick(site: &'static str) {
+    ENV.with(|e| {
+        if let Some(env) = e.borrow_mut().as_mut() {
+            env.tick(site)
+        }
+    })
+}
+
+fn map_policy(site: &'static str) -> Policy {
+    ENV.with(|e| match e.borrow_mut().as_mut() {
+        Some(env) => env.map_policy(site),
+        None => Policy::Sip(0, 0),
+    })
+}
+
+fn next_u64(site: &'static str) -> u64 {
+    ENV.with(|e| match e.borrow_mut().as_mut() {
+        Some(env) => env.next_u64(site),
+        None => FALLBACK.with(|s| {
+            // splitmix64
+            let mut s = s.borrow_mut();
+            *s = s.wrapping_add(0x9E37_79B9_7F4A_7C15);
+            let mut z = *s;
+            z = (z ^ (z >> 30)).wrapping_mul(0xBF58_476D_1CE4_E5B9);
+            z = (z ^ (z >> 27)).wrapping_mul(0x94D0_49BB_1331_11EB);
+            z ^ (z >> 31)
+        }),
+    })
+}
+
+pub mod collections {
+    use super::{map_policy, tick, Policy};
+    use std::borrow::Borrow;
+    use std::collections::hash_map::DefaultHasher;
+    use std::fmt;
+    use std::hash::{BuildHasher, Hash, Hasher};
+    use std::ops::{Deref, DerefMut, Index};
+
+    #[derive(Clone, Copy, Debug)]
+    pub struct SimState(Policy);
+
+    impl SimState {
+        fn at(site: &'static str) -> Self {
+            SimState(map_policy(site))
+        }
+        pub fn policy(&self) -> Policy {
+            self.0
+        }
+    }
+
+    pub enum SimHasher {
+        Sip(DefaultHasher),
+        Fold(u64, Policy),
+    }
+
+    impl Hasher for SimHasher {
+        fn write(&mut self, bytes: &[u8]) {
+            match self {
+                SimHasher::Sip(h) => h.write(bytes),
+                SimHasher::Fold(s, _) => {
+                    for chunk in bytes.chunks(8) {
+                        let mut w = [0u8; 8];
+                        w[..chunk.len()].copy_from_slice(chunk);
+                        *s = s.wrapping_mul(1_000_003).wrapping_add(u64::from_le_bytes(w));
+                    }
+                }
+            }
+        }
+
+        fn finish(&self) -> u64 {
+            match self {
+                SimHasher::Sip(h) => h.finish(),
+                SimHasher::Fold(s, p) => match p {
+                    Policy::Identity | Policy::Sip(..) => *s,
+                    Policy::Reverse => !*s,
+                    Policy::Mul(m) => s.wrapping_mul(*m | 1).rotate_left(26),
+                    Policy::Collide(m) => *s % (*m).max(1),
+                },
+            }
+        }
+    }
+
+    impl BuildHasher for SimState {
+        type Hasher = SimHasher;
+        fn build_hasher(&self) -> SimHasher {
+            match self.0 {
+                Policy::Sip(k0, k1) => {
+                    let mut h = DefaultHasher::new();
+                    h.write_u64(k0);
+                    h.write_u64(k1);
+                    SimHasher::Sip(h)
+                }
+                p => SimHasher::Fold(0, p),
+            }
+        }
+    }
+
+    type StdMap<K, V> = std::collections::HashMap<K, V, SimState>;
+    type StdSet<T> = std::collections::HashSet<T, SimState>;
+
+    pub struct HashMap<K, V>(StdMap<K, V>);
+    pub struct HashSet<T>(StdSet<T>);
+
+    impl<K, V> HashMap<K, V> {
+        #[allow(clippy::new_without_default)]
+        pub fn new() -> Self {
+            HashMap(StdMap::with_hasher(SimState::at("HashMap::new")))
+        }
+        pub fn with_capacity(n: usize) -> Self {
+            HashMap(StdMap::with_capacity_and_hasher(
+                n,
+                SimState::at("HashMap::with_capacity"),
+            ))
+        }
+    }
+
+    impl<T> HashSet<T> {
+        #[allow(clippy::new_without_default)]
+        pub fn new() -> Self {
+            HashSet(StdSet::with_hasher(SimState::at("HashSet::new")))
+        }
+        pub fn with_capacity(n: usize) -> Self {
+            HashSet(StdSet::with_capacity_and_hasher(
+                n,
+                SimState::at("HashSet::with_capacity"),
+            ))
+        }
+    }
+
+    impl<K, V> Default for HashMap<K, V> {
+        fn default() -> Self {
+            HashMap(StdMap::with_hasher(SimState::at("HashMap::default")))
+        }
+    }
+    impl<T> Default for HashSet<T> {
+        fn default() -> Self {
+            HashSet(StdSet::with_hasher(SimState::at("HashSet::default")))
+        }
+    }
+
+    impl<K, V> Deref for HashMap<K, V> {
+        type Target = StdMap<K, V>;
+        fn deref(&self) -> &Self::Target {
+            tick("HashMap::deref");
+            &self.0
+        }
+    }
+    impl<K, V> DerefMut for HashMap<K, V> {
+        fn deref_mut(&mut self) -> &mut Self::Target {
+            tick("HashMap::deref_mut");
+            &mut self.0
+        }
+    }
+    impl<T> Deref for HashSet<T> {
+        type Target = StdSet<T>;
+        fn deref(&self) -> &Self::Target {
+            tick("HashSet::deref");
+            &self.0
+        }
+    }
+    impl<T> DerefMut for HashSet<T> {
+        fn deref_mut(&mut self) -> &mut Self::Target {
+            tick("HashSet::deref_mut");
+            &mut self.0
+        }
+    }
+
+    impl<K, Q: ?Sized, V> Index<&Q> for HashMap<K, V>
+    where
+        K: Eq + Hash + Borrow<Q>,
+        Q: Eq + Hash,
+    {
+        type Output = V;
+        fn index(&self, key: &Q) -> &V {
+            tick("HashMap::index");
+            self.0.index(key)
+        }
+    }
+
+    impl<K: Eq + Hash, V> FromIterator<(K, V)> for HashMap<K, V> {
+        fn from_iter<I: IntoIterator<Item = (K, V)>>(iter: I) -> Self {
+            let mut m = StdMap::with_hasher(SimState::at("HashMap::from_iter"));
+            m.extend(iter);
+            HashMap(m)
+        }
+    }
+    impl<T: Eq + Hash> FromIterator<T> for HashSet<T> {
+        fn from_iter<I: IntoIterator<Item = T>>(iter: I) -> Self {
+            let mut s = StdSet::with_hasher(SimState::at("HashSet::from_iter"));
+            s.extend(iter);
+            HashSet(s)
+        }
+    }
+
+    impl<K: Eq + Hash, V, const N: usize> From<[(K, V); N]> for HashMap<K, V> {
+        fn from(arr: [(K, V); N]) -> Self {
+            arr.into_iter().collect()
+        }
+    }
+    impl<T: Eq + Hash, const N: usize> From<[T; N]> for HashSet<T> {
+        fn from(arr: [T; N]) -> Self {
+            arr.into_iter().collect()
+        }
+    }
+
+    impl<K: Eq + Hash, V> Extend<(K, V)> for HashMap<K, V> {
+        fn extend<I: IntoIterator<Item = (K, V)>>(&mut self, iter: I) {
+            tick("HashMap::extend");
+            self.0.extend(iter)
+        }
+    }
+    impl<T: Eq + Hash> Extend<T> for HashSet<T> {
+        fn extend<I: IntoIterator<Item = T>>(&mut self, iter: I) {
+            tick("HashSet::extend");
+            self.0.extend(iter)
+        }
+    }
+
+    impl<K, V> IntoIterator for HashMap<K, V> {
+        type Item = (K, V);
+        type IntoIter = std::collections::hash_map::IntoIter<K, V>;
+        fn into_iter(self) -> Self::IntoIter {
+            tick("HashMap::into_iter");
+            self.0.into_iter()
+        }
+    }
+    impl<'a, K, V> IntoIterator for &'a HashMap<K, V> {
+        type Item = (&'a K, &'a V);
+        type IntoIter = std::collections::hash_map::Iter<'a, K, V>;
+        fn into_iter(self) -> Self::IntoIter {
+            tick("HashMap::iter");
+            self.0.iter()
+        }
+    }
+    impl<'a, K, V> IntoIterator for &'a mut HashMap<K, V> {
+        type Item = (&'a K, &'a mut V);
+        type IntoIter = std::collections::hash_map::IterMut<'a, K, V>;
+        fn into_iter(self) -> Self::IntoIter {
+            tick("HashMap::iter_mut");
+            self.0.iter_mut()
+        }
+    }
+    impl<T> IntoIterator for HashSet<T> {
+        type Item = T;
+        type IntoIter = std::collections::hash_set::IntoIter<T>;
+        fn into_iter(self) -> Self::IntoIter {
+            tick("HashSet::into_iter");
+            self.0.into_iter()
+        }
+    }
+    impl<'a, T> IntoIterator for &'a HashSet<T> {
+        type Item = &'a T;
+        type IntoIter = std::collections::hash_set::Iter<'a, T>;
+        fn into_iter(self) -> Self::IntoIter {
+            tick("HashSet::iter");
+            self.0.iter()
+        }
+    }
+
+    impl<K: Clone, V: Clone> Clone for HashMap<K, V> {
+        fn clone(&self) -> Self {
+            HashMap(self.0.clone())
+        }
+    }
+    impl<T: Clone> Clone for HashSet<T> {
+        fn clone(&self) -> Self {
+            HashSet(self.0.clone())
+        }
+    }
+
+    impl<K: fmt::Debug, V: fmt::Debug> fmt::Debug for HashMap<K, V> {
+        fn fmt(&self, f: &mut fmt::Formatter<'_>) -> fmt::Result {
+            self.0.fmt(f)
+        }
+    }
+    impl<T: fmt::Debug> fmt::Debug for HashSet<T> {
+        fn fmt(&self, f: &mut fmt::Formatter<'_>) -> fmt::Result {
+            self.0.fmt(f)
+        }
+    }
+
+    impl<K: Eq + Hash, V: PartialEq> PartialEq for HashMap<K, V> {
+        fn eq(&self, other: &Self) -> bool {
+            self.0 == other.0
+        }
+    }
+    impl<K: Eq + Hash, V: Eq> Eq for HashMap<K, V> {}
+    impl<T: Eq + Hash> PartialEq for HashSet<T> {
+        fn eq(&self, other: &Self) -> bool {
+            self.0 == other.0
+        }
+    }
+    impl<T: Eq + Hash> Eq for HashSet<T> {}
+}
+
+/// Stand-in for the parts of the `rand` crate that product code uses. The distributions and
+/// the shuffle are rand's own; only the raw bits come from the environment.
+pub mod rand_seam {
+    pub use ::rand::*;
+
+    pub mod prelude {
+        pub use ::rand::prelude::*;
+    }
+
+    pub struct SimRng;
+
+    impl RngCore for SimRng {
+        fn next_u32(&mut self) -> u32 {
+            (super::next_u64("rng::next_u32") >> 32) as u32
+        }
+        fn next_u64(&mut self) -> u64 {
+            super::next_u64("rng::next_u64")
+        }
+        fn fill_bytes(&mut self, dst: &mut [u8]) {
+            for chunk in dst.chunks_mut(8) {
+                let w = super::next_u64("rng::fill_bytes").to_le_bytes();
+                chunk.copy_from_slice(&w[..chunk.len()]);
+            }
+        }
+    }
+
+    pub fn rng() -> SimRng {
+        SimRng
+    }
+
+    pub fn random<T>() -> T
+    where
+        distr::StandardUniform: distr::Distribution<T>,
+    {
+        SimRng.random()
+    }
+}
